@@ -92,6 +92,9 @@ type RecBackend struct {
 	Reqs    []*RecReq
 	Respond func(*RecReq) *Resp // nil: 200 "backend:<path>"
 	Hold    func(*RecReq)       // optional: called (may block) before responding
+	// Early: requests for which the backend answers without reading the body (a 401 / 413 that does not wait for the
+	// upload); the body recorded for them is empty.
+	Early func(*http.Request) bool
 }
 
 func (b *RecBackend) RoundTrip(req *http.Request) (*http.Response, error) {
@@ -100,7 +103,7 @@ func (b *RecBackend) RoundTrip(req *http.Request) (*http.Response, error) {
 	if rr.Host == "" {
 		rr.Host = req.URL.Host
 	}
-	if req.Body != nil {
+	if req.Body != nil && !(b.Early != nil && b.Early(req)) {
 		body, err := io.ReadAll(req.Body)
 		req.Body.Close()
 		if err != nil {
